@@ -19,6 +19,30 @@ class BodyError(Exception):
     pass
 
 
+class Falsy:
+    """An item that is falsy, unhashable and compares equal to everything, None included."""
+    __hash__ = None  # type: ignore[assignment]
+
+    def __bool__(self) -> bool:
+        return False
+
+    def __eq__(self, other: Any) -> bool:
+        return True
+
+    def __len__(self) -> int:
+        return 0
+
+
+# what a queue may legitimately carry: kind 0 is a serial number; the others are values that code tends to mistake for "no item"
+ITEM_KINDS = ["serial", "None", "zero", "False", "empty-str", "empty-tuple", "fresh-list", "falsy-object", "exception", "ellipsis"]
+
+
+def make_item(kind: int, serial: int) -> Any:
+    name = ITEM_KINDS[kind % len(ITEM_KINDS)]
+    return {"serial": serial + 1, "None": None, "zero": 0, "False": False, "empty-str": "", "empty-tuple": (), "fresh-list": [],
+            "falsy-object": Falsy(), "exception": BodyError(), "ellipsis": ...}[name]
+
+
 def decode(data: bytes) -> dict:
     d = D(data)
     prog: Dict[str, Any] = {"maxsize": d.pick([0, 0, 1, 2, 3]), "steps": []}
@@ -26,7 +50,11 @@ def decode(data: bytes) -> dict:
     for _ in range(n):
         r = d.i(0, 99)
         if r < 20:
-            prog["steps"].append({"op": "put", "n": d.i(1, 3)})
+            nput = d.i(1, 3)
+            step: Dict[str, Any] = {"op": "put", "n": nput}
+            if d.p(0.35):
+                step["kinds"] = [d.i(0, len(ITEM_KINDS) - 1) for _ in range(nput)]
+            prog["steps"].append(step)
         elif r < 42:
             body = []
             for _ in range(d.i(0, 2)):
@@ -57,7 +85,8 @@ class QRun:
         self.consumers: List[dict] = []
         self.joiners: List[dict] = []
         self.waiters: List[Any] = []
-        self.items_seen: List[int] = []
+        self.items_seen: List[Any] = []
+        self.items_put: List[Any] = []
         self.teardown = False
         self.inconclusive: Optional[str] = None
         self.next_item = 0
@@ -67,6 +96,18 @@ class QRun:
         if self.teardown or any(v["clause"] == clause for v in self.viol):
             return
         self.viol.append({"props": ["C20"], "clause": clause, "detail": detail, "opno": self.puts + self.exits})
+
+    def saw(self, item: Any) -> None:
+        """The object handed to a block is one of the objects put, and no object is handed out more often than it was put."""
+        n_put = sum(1 for x in self.items_put if x is item)
+        n_seen = sum(1 for x in self.items_seen if x is item)
+        if n_put == 0:
+            self.fail("item/block-got-something-never-put", type(item).__name__)
+        elif n_seen >= n_put:
+            self.fail("item/delivered-twice", type(item).__name__)
+        self.items_seen.append(item)
+        if item is None or (not isinstance(item, int) or isinstance(item, bool)) or item == 0:
+            self.labels.add("item:awkward-value")
 
     def zero_check(self) -> None:
         if self.puts == self.exits:
@@ -91,7 +132,7 @@ class QRun:
             try:
                 async with q as outer:
                     self.entries += 1
-                    self.items_seen.append(outer)
+                    self.saw(outer)
                     self.labels.add("nested-blocks")
                     rec["inner"] = True
                     try:
@@ -110,9 +151,7 @@ class QRun:
                 rec["state"] = "inbody"
                 self.entries += 1
                 rec["item"] = item
-                if item in self.items_seen:
-                    self.fail("item/delivered-twice", str(item))
-                self.items_seen.append(item)
+                self.saw(item)
                 if not (self.exits <= self.entries <= self.puts):
                     self.fail("count/exits<=entries<=puts", f"{self.exits} {self.entries} {self.puts}")
                 try:
@@ -159,7 +198,7 @@ class QRun:
             async with q as item:
                 rec["state"] = "inbody"
                 run.entries += 1
-                run.items_seen.append(item)
+                run.saw(item)
                 try:
                     yield item
                 finally:
@@ -204,7 +243,7 @@ class QRun:
         if not rec["zero_seen"] and not self.teardown:
             self.fail("join/returned-although-items-unprocessed", f"puts {self.puts} exits {self.exits}")
 
-    async def putter(self, item: int) -> None:
+    async def putter(self, item: Any) -> None:
         await self.q.put(item)
         self.puts += 1
 
@@ -243,9 +282,11 @@ class QRun:
         for st_ in self.prog["steps"]:
             op = st_["op"]
             if op == "put":
-                for _ in range(st_["n"]):
-                    item = self.next_item
+                for j in range(st_["n"]):
+                    kinds = st_.get("kinds") or []
+                    item = make_item(kinds[j] if j < len(kinds) else 0, self.next_item)
                     self.next_item += 1
+                    self.items_put.append(item)
                     if not self.q.full():
                         self.q.put_nowait(item)
                         self.puts += 1
@@ -353,13 +394,27 @@ def sweep_cases(tier: str) -> List[dict]:
                                     steps.append({"op": "put", "n": 1})
                                     steps.append({"op": "settle"})
                                     cases.append({"maxsize": maxsize, "steps": steps})
-    return cases[::6] if tier == "quick" else cases
+    cases = cases[::6] if tier == "quick" else cases
+    # every kind of item through every way of taking it (waiting consumer / item already there), body ending either way
+    for kind in range(len(ITEM_KINDS)):
+        for maxsize in (0, 1):
+            for put_first in (True, False):
+                for end in ("ret", "raise"):
+                    for body in ([], [["yield", 1]]):
+                        a = {"op": "put", "n": 2, "kinds": [kind, kind]}
+                        b = {"op": "consumer", "body": body, "end": end, "n": 2}
+                        steps = [a, b] if put_first else [b, {"op": "tick", "k": 1}, a]
+                        steps += [{"op": "joiner"}, {"op": "settle"}, {"op": "put", "n": 1, "kinds": [kind]}, {"op": "agen", "how": "aclose"}, {"op": "settle"}]
+                        cases.append({"maxsize": maxsize, "steps": steps})
+    return cases
 
 
 class C20Engine(Engine):
     pid = "C20"
     rule = ("programs over put / consumer('async with queue as item' with scripted body: yield, gated wait, return or raise) / cancel "
-            "(a consumer waiting for an item, inside its body, or any) / join() waiter / gate / tick, queue maxsize in {0,1,2,3}; plus an "
+            "(a consumer waiting for an item, inside its body, or any) / join() waiter / gate / tick, queue maxsize in {0,1,2,3}, items that are "
+            "serial numbers or awkward values (None, 0, False, '', (), a fresh list, a falsy unhashable object equal to everything, an exception "
+            "instance, Ellipsis); plus an "
             "enumerated sweep of a cancellation at every tick of small scenarios. Oracle: exits<=entries<=puts, no ValueError from "
             "task_done, join() waiter done at idle iff puts == exited blocks at some moment since it started, final join probe. "
             "Non-trivial: a body raised, a consumer was cancelled while waiting and one inside its body. Distinct = program hash.")
